@@ -427,6 +427,13 @@ fn c17_cfg(t: Tier) -> GenCfg {
   c
 }
 
+fn c17_extra(_spec: &Spec, tier: Tier, seed: u64, known: &Known, report: &mut Report) {
+  let (shards, cases, max) = match tier { Tier::Quick => (8, 6000, 40), Tier::Thorough => (16, 60000, 80) };
+  let scfg = SearchCfg { prop: "C17", label: "api", seed, shards, cases_per_shard: cases, max_shrink_iters: 3000 };
+  let (stats, found) = driver::search(&scfg, known, || super::trackerapi::strategy(max), |c, s| super::trackerapi::check(c, s), |c| format!("{:?}", c));
+  report.absorb("api", stats, found);
+}
+
 pub const C17: Spec = Spec {
   prop: "C17",
   level: "exploration",
@@ -437,7 +444,7 @@ pub const C17: Spec = Spec {
   opts: composite_opts,
   quick: (8, 8000),
   thorough: (16, 15000),
-  extra: None,
+  extra: Some(c17_extra),
   strategy: None,
   assumptions: &["Rec records every tracker call it receives", "Debug text of EventTracker events is compared with text built from the recorded stream"],
 };
